@@ -558,6 +558,17 @@ def family_taint():
     add(F, "t_list_element", ["t = source()", "l = [1, t]", "u = l[1]", "sink(u)", "return 0"])
     add(F, "t_two_sinks", ["t = source()", "if c:", "    sink(t)", "else:", "    u = t", "    sink(u)", "return 0"])
     add(F, "t_two_sources", ["t = source()", "u = source()", "if c:", "    sink(t)", "sink(u)", "return 0"])
+    # round 2
+    add(F, "t_sink_twice_same_function", ["t = source()", "sink(t)", "u = t", "sink(u)", "return 0"])
+    add(F, "t_global_set_in_callee_then_copied", ["set_g()", "u = G", "sink(u)", "return 0"], helpers="G = 0\ndef set_g():\n    global G\n    G = source()\n")
+    add(F, "t_nonlocal_assignment", ["n = 0", "def setn():", "    nonlocal n", "    n = source()", "setn()", "sink(n)", "return 0"])
+    add(F, "t_closure_returns_captured", ["t = source()", "def getit():", "    return t", "u = getit()", "sink(u)", "return 0"])
+    add(F, "t_nested_field_written_in_callee", ["o = Box(Box(0))", "put(o, source())", "w = o.v", "sink(w.v)", "return 0"], helpers=KO + "def put(q, x):\n    q.v.v = x\n")
+    add(F, "t_helper_with_sink_through_wrapper_three_calls", ["t = source()", "wr(1)", "wr(2)", "wr(t)", "return 0"], helpers="def snk(p):\n    sink(p)\n\ndef wr(q):\n    snk(q)\n")
+    add(F, "t_two_returns_in_helper", ["u = pick(c)", "sink(u)", "return 0"], helpers="def pick(flag):\n    if flag:\n        return source()\n    return 0\n")
+    add(F, "t_keyword_arguments_unsorted", ["t = source()", "kw(x=t, a=1)", "return 0"], helpers="def kw(a, x):\n    sink(x)\n")
+    add(F, "t_reassigned_same_name", ["t = source()", "t = t + 1", "u = t", "sink(u)", "return 0"])
+    add(F, "t_argument_with_two_definitions", ["t = 0", "if c:", "    t = source()", "pass_to(t)", "return 0"], helpers="def pass_to(p):\n    sink(p)\n")
     add(N, "n_other_variable", ["t = source()", "v = 5", "sink(v)", "return 0"])
     add(N, "n_wrong_position", ["t = source()", "sink(1, t)", "return 0"])
     add(N, "n_overwritten_before_sink", ["t = source()", "t = 3", "sink(t)", "return 0"])
